@@ -49,7 +49,7 @@ def gen_case(rng):
     elif r < 0.82: vals = {'dr': step}
     elif r < 0.9:
         vals = rng.choice([{'nr': '0', 'dr': step, 'cutoff': cut}, {'nr': nr, 'dr': step, 'cutoff': '0'}, {'nr': '-3', 'cutoff': cut}, {'dr': '-0.1', 'cutoff': cut}, {'dr': '0', 'cutoff': cut},
-                           {'cutoff': '-1.5', 'nr': nr}, {'nr': '0'}, {'cutoff': '0.0'}, {'dr': '0.0', 'nr': nr}, {'nr': '1', 'dr': step}])
+                           {'cutoff': '-1.5', 'nr': nr}, {'nr': '0'}, {'cutoff': '0.0'}, {'dr': '0.0', 'nr': nr}, {'nr': '1', 'dr': step}, {'nr': '1', 'cutoff': cut}, {'nr': '1'}, {'cutoff': '0.04', 'dr': '0.1'}, {'cutoff': '0.06', 'dr': '0.1'}, {'nr': '2', 'cutoff': cut}])
     elif r < 0.93: vals = rng.choice([{}, {'nr': nr}, {'cutoff': cut}])
     elif r < 0.96: vals = rng.choice([{'cutoff': 'nan'}, {'cutoff': 'inf', 'dr': step}, {'cutoff': cut, 'dr': 'nan'}, {'dr': 'inf', 'nr': nr}, {'cutoff': '-inf', 'nr': nr}, {'cutoff': 'nan', 'dr': 'nan'}])
     else: vals = {'cutoff': repr(rng.uniform(0.5, 20)), 'dr': repr(rng.uniform(0.001, 0.5))}     # not a multiple
@@ -157,7 +157,8 @@ def oracle(case):
         import math
         return 0 < float(x) < math.inf
     keys = set(v)
-    bad = (keys == {'nr', 'dr', 'cutoff'}) or keys == {'dr'} or any(not pos(x) for x in v.values()) or (keys == {'nr', 'dr'} and int(v['nr']) == 1)   # nr 1 with a step derives cutoff 0
+    bad = (keys == {'nr', 'dr', 'cutoff'}) or keys == {'dr'} or any(not pos(x) for x in v.values()) or ('nr' in v and int(v['nr']) < 2)   # one row defines no grid
+    if not bad and keys == {'cutoff', 'dr'} and round(float(v['cutoff']) / float(v['dr'])) < 1: bad = True      # less than half a step: a single row
     if bad:
         return [] if got[0] == 'CfgErr' else ['[Tabulation] with %r should be a configuration error, got %s %s' % (v, got[0], got[1])]
     if got[0] != 'Ok': return ['valid [Tabulation] %r refused: %s' % (v, got[1])]
